@@ -39,14 +39,15 @@ def aiff_inst_mark(ch=1, frames=64, aifc=False, nmark=3):
     return b"FORM" + struct.pack(">I", len(form)) + form
 
 
-def wav_smpl_cue(ch=1, frames=64, extensible=False, ncue=2):
+def wav_smpl_cue(ch=1, frames=64, extensible=False, ncue=2, lablen=0):
     data = bytes((i * 5 + 1) & 0xFF for i in range(frames * ch * 2))
     if extensible:
         fmt = struct.pack("<HHIIHHHHI", 0xFFFE, ch, 44100, 44100 * ch * 2, ch * 2, 16, 22, 16, 3 if ch == 2 else 4) + b"\x01\x00\x00\x00\x00\x00\x10\x00\x80\x00\x00\xaa\x00\x38\x9b\x71"
     else:
         fmt = struct.pack("<HHIIHH", 1, ch, 44100, 44100 * ch * 2, ch * 2, 16)
     cue = struct.pack("<I", ncue) + b"".join(struct.pack("<II4sIII", i + 1, (10 * i) % frames, b"data", 0, 0, (10 * i) % frames) for i in range(ncue))
-    adtl = b"adtl" + _ck(b"labl", struct.pack("<I", 1) + b"first\0", big=False) + _ck(b"note", struct.pack("<I", 2) + b"second note\0", big=False) \
+    adtl = b"adtl" + _ck(b"labl", struct.pack("<I", 1) + b"first\0", big=False) \
+        + (_ck(b"labl", struct.pack("<I", ncue) + b"L" * lablen + b"\0", big=False) if lablen else b"") + _ck(b"note", struct.pack("<I", 2) + b"second note\0", big=False) \
         + _ck(b"ltxt", struct.pack("<II4sHHHH", 1, 20, b"rgn ", 0, 0, 0, 0) + b"text\0", big=False)
     smpl = struct.pack("<9I", 0, 0, 22675, 60, 0, 0, 0, 2, 0) + b"".join(struct.pack("<6I", i, 0, 5 * i, 5 * i + 20, 0, 0) for i in range(2))
     inst = struct.pack("<bbbbbbb", 60, 0, 0, 0, 127, 1, 127)
@@ -93,6 +94,10 @@ def crafted():
     a2 = a[8:k] + extra + a[k:]
     a2 = b"FORM" + struct.pack(">I", len(a2)) + a2
     out.append((0x20002, 1, a2, a2.index(b"SSND") + 16))
+    # labels as long as and longer than the 256 byte name field of a cue point (for the last cue point: the end of the allocation)
+    for ll in (255, 256, 300):
+        w = wav_smpl_cue(1, lablen=ll)
+        out.append((0x10002, 1, w, w.rindex(b"data") + 8))
     # more cue points / markers than the fixed-size SF_CUES a caller usually passes (100)
     w = wav_smpl_cue(1, ncue=120)
     out.append((0x10002, 1, w, 120))
